@@ -1,7 +1,11 @@
-(* C13 — the back-end-free specification of a script whose read-callback triggers only write:
-   which triggers fire between two idle phases is the least fixpoint of "registered and threshold
-   reached by the bytes written so far", computed by Kleene iteration; it does not depend on the
-   order in which contexts are visited.  Pure lemmas (no loop here). *)
+(* C13 — the back-end-free specification of a script whose read-callback triggers write to,
+   half-close or close peers, or wake the loop: which triggers fire between two idle phases is the
+   least fixpoint of "registered and threshold reached by the bytes written so far", computed by
+   Kleene iteration; it does not depend on the order in which contexts are visited.
+   A terminator (half-close / close of a peer) is one more monotone fact: under the single-source
+   condition of class S all callback-issued writes and terminators for that peer come from ONE
+   context, whose triggers fire in list order, so what reaches the peer is a prefix of a fixed
+   action sequence.  Pure lemmas (no loop here). *)
 From MV Require Import C13.Model C13.ProofsLife C13.ProofsIso C13.ProofsRead.
 From Coq Require Import Permutation.
 
@@ -25,6 +29,9 @@ Proof.
   - intros H. destruct (memt l t) eqn:E; auto. apply memt_In in E. contradiction.
 Qed.
 
+Lemma memt_app : forall a b t, memt (a ++ b) t = memt a t || memt b t.
+Proof. intros. unfold memt. apply existsb_app. Qed.
+
 Fixpoint nodupb (l : list trigger) : bool :=
   match l with [] => true | a :: r => negb (memt r a) && nodupb r end.
 Lemma nodupb_NoDup : forall l, nodupb l = true -> NoDup l.
@@ -34,19 +41,131 @@ Proof.
   apply Bool.negb_true_iff in A. apply memt_false in A. auto.
 Qed.
 
-(* bytes a trigger writes to y *)
-Definition wr (y : nat) (t : trigger) : nat := act_writes_to y (tact t).
+(* ------------------------------------------------------------------ trigger actions and their effect *)
+Definition tact_ok (a : action) : bool :=
+  match a with AWrite _ _ | AHclose _ | APclose _ | AWake => true | _ => false end.
+Definition all_tacts (l : list trigger) : Prop := forall t, In t l -> tact_ok (tact t) = true.
 Definition is_write (a : action) : bool := match a with AWrite _ _ => true | _ => false end.
 
-(* sums over the triggers of U selected by P, and over a list *)
-Fixpoint ws (U : list trigger) (P : trigger -> bool) (y : nat) : nat :=
-  match U with [] => 0 | t :: r => (if P t then wr y t else 0) + ws r P y end.
-Fixpoint wsl (l : list trigger) (y : nat) : nat :=
-  match l with [] => 0 | t :: r => wr y t + wsl r y end.
+Lemma tact_ok_phase : forall a, tact_ok a = true -> phase_act_ok a = true.
+Proof. intros []; simpl; auto. Qed.
 
-(* total bytes ever written to y when the triggers P of U have fired on top of the ghost E *)
+Definition addq (c : cst) (n : nat) : cst :=
+  mkC (ckind c) (cq c + n) (ceof c) (cpopen c) (csht c) (cflag c) (cadded c) (cregok c) (cclosed c) (coff c).
+Lemma addq_0 : forall c, addq c 0 = c.
+Proof. intros []. unfold addq. simpl. rewrite Nat.add_0_r. auto. Qed.
+Lemma addq_addq : forall c a b, addq (addq c a) b = addq c (a + b).
+Proof. intros. unfold addq. simpl. f_equal. lia. Qed.
+Lemma can_write_addq : forall c n, can_write (addq c n) = can_write c.
+Proof. intros. reflexivity. Qed.
+
+(* what an action does to the context it targets *)
+Definition act1 (a : action) (c : cst) : cst :=
+  match a with
+  | AWrite _ k => if can_write c then addq c k else c
+  | AHclose _ => if cpopen c && negb (ceof c)
+                 then mkC (ckind c) (cq c) true (negb (is_pipe c)) (csht c) (cflag c) (cadded c) (cregok c) (cclosed c) (coff c)
+                 else c
+  | APclose _ => if cpopen c
+                 then mkC (ckind c) (cq c) true false (csht c) (cflag c) (cadded c) (cregok c) (cclosed c) (coff c)
+                 else c
+  | _ => c
+  end.
+
+Lemma cx_do_tact : forall a s y, tact_ok a = true ->
+  cx (do_act a s) y = if targets_any y a then act1 a (cx s y) else cx s y.
+Proof.
+  intros a s y H. destruct a; try discriminate; unfold do_act, targets_any, targets_term, act1.
+  - simpl. destruct (Nat.eqb y0 y) eqn:E.
+    + apply Nat.eqb_eq in E. subst y0.
+      destruct (can_write (cx s y)); simpl; auto.
+      destruct (Nat.eqb k 0); simpl; rewrite ?cx_edge; simpl; rewrite Nat.eqb_refl; auto.
+    + assert (Nat.eqb y y0 = false) as E' by (apply Nat.eqb_neq; apply Nat.eqb_neq in E; auto).
+      destruct (can_write (cx s y0)); simpl; auto.
+      destruct (Nat.eqb k 0); simpl; rewrite ?cx_edge; simpl; rewrite E'; auto.
+  - simpl. rewrite Bool.orb_false_r. destruct (Nat.eqb y0 y) eqn:E.
+    + apply Nat.eqb_eq in E. subst y0.
+      destruct (cpopen (cx s y) && negb (ceof (cx s y))); simpl; auto.
+      rewrite cx_edge. simpl. rewrite Nat.eqb_refl. auto.
+    + assert (Nat.eqb y y0 = false) as E' by (apply Nat.eqb_neq; apply Nat.eqb_neq in E; auto).
+      destruct (cpopen (cx s y0) && negb (ceof (cx s y0))); simpl; auto.
+      rewrite cx_edge. simpl. rewrite E'. auto.
+  - simpl. rewrite Bool.orb_false_r. destruct (Nat.eqb y0 y) eqn:E.
+    + apply Nat.eqb_eq in E. subst y0.
+      destruct (cpopen (cx s y)); simpl; auto.
+      destruct (is_tcp (cx s y) && ceof (cx s y)); simpl; rewrite ?cx_edge; simpl; rewrite Nat.eqb_refl; auto.
+    + assert (Nat.eqb y y0 = false) as E' by (apply Nat.eqb_neq; apply Nat.eqb_neq in E; auto).
+      destruct (cpopen (cx s y0)); simpl; auto.
+      destruct (is_tcp (cx s y0) && ceof (cx s y0)); simpl; rewrite ?cx_edge; simpl; rewrite E'; auto.
+  - simpl. rewrite cx_edge. auto.
+Qed.
+
+Lemma bk_do_tact : forall a s, tact_ok a = true -> bk (do_act a s) = bk s.
+Proof.
+  intros a s H. destruct a; try discriminate; unfold do_act;
+    repeat match goal with |- context [if ?c then _ else _] => destruct c end; simpl; rewrite ?bk_edge; auto.
+Qed.
+
+Definition yacts (l : list trigger) (y : nat) : list action := filter (targets_any y) (map tact l).
+Definition apply_y (l : list action) (c : cst) : cst := fold_left (fun c a => act1 a c) l c.
+
+Lemma apply_y_app : forall l1 l2 c, apply_y (l1 ++ l2) c = apply_y l2 (apply_y l1 c).
+Proof. intros. unfold apply_y. apply fold_left_app. Qed.
+
+Lemma ghost_y : forall l E y, all_tacts l ->
+  cx (do_acts (map tact l) E) y = apply_y (yacts l y) (cx E y) /\ bk (do_acts (map tact l) E) = bk E.
+Proof.
+  induction l as [|t l IH]; intros E y W; simpl; [auto|].
+  assert (Wt : tact_ok (tact t) = true) by (apply W; left; auto).
+  assert (Wl : all_tacts l) by (intros u Hu; apply W; right; auto).
+  destruct (IH (do_act (tact t) E) y Wl) as [A B].
+  split; [|rewrite B; apply bk_do_tact; auto].
+  rewrite A, (cx_do_tact _ _ _ Wt). unfold yacts. simpl.
+  destruct (targets_any y (tact t)); simpl; auto.
+Qed.
+
+(* the parts of a context an action never changes, and the directions in which the rest moves *)
+Record samefix (c c' : cst) : Prop := mkSF {
+  sf_kind : ckind c' = ckind c; sf_sht : csht c' = csht c; sf_flag : cflag c' = cflag c;
+  sf_add : cadded c' = cadded c; sf_reg : cregok c' = cregok c; sf_cl : cclosed c' = cclosed c;
+  sf_off : coff c' = coff c; sf_q : cq c <= cq c'; sf_eof : ceof c = true -> ceof c' = true
+}.
+Lemma samefix_refl : forall c, samefix c c. Proof. intros; constructor; auto. Qed.
+Lemma samefix_trans : forall a b c, samefix a b -> samefix b c -> samefix a c.
+Proof. intros a b c [] []. constructor; try congruence; auto; lia. Qed.
+Lemma act1_samefix : forall a c, samefix c (act1 a c).
+Proof.
+  intros a c. destruct a; simpl; try apply samefix_refl.
+  - destruct (can_write c); [constructor; simpl; auto; lia|apply samefix_refl].
+  - destruct (cpopen c && negb (ceof c)); [constructor; simpl; auto|apply samefix_refl].
+  - destruct (cpopen c); [constructor; simpl; auto|apply samefix_refl].
+Qed.
+Lemma apply_samefix : forall l c, samefix c (apply_y l c).
+Proof.
+  induction l as [|a l IH]; intros c; simpl; [apply samefix_refl|].
+  eapply samefix_trans; [apply act1_samefix|apply IH].
+Qed.
+
+Fixpoint sumw (l : list action) : nat :=
+  match l with [] => 0 | AWrite _ k :: r => k + sumw r | _ :: r => sumw r end.
+
+Lemma apply_writes : forall l c, (forall a, In a l -> is_write a = true) ->
+  apply_y l c = addq c (if can_write c then sumw l else 0).
+Proof.
+  induction l as [|a l IH]; intros c W; simpl.
+  - destruct (can_write c); rewrite addq_0; auto.
+  - assert (is_write a = true) by (apply W; left; auto).
+    destruct a; try discriminate. simpl.
+    rewrite IH by (intros b Hb; apply W; right; auto).
+    destruct (can_write c) eqn:CW; simpl.
+    + rewrite can_write_addq, CW, addq_addq. auto.
+    + rewrite CW. auto.
+Qed.
+
+(* ------------------------------------------------------------------ the fixpoint *)
+(* total bytes ever written to y when the triggers P of U have fired (in list order) on the ghost E *)
 Definition tot (E : st) (U : list trigger) (P : trigger -> bool) (y : nat) : nat :=
-  cq (cx E y) + (if can_write (cx E y) then ws U P y else 0).
+  cq (apply_y (yacts (filter P U) y) (cx E y)).
 (* trigger t is enabled: its context is registered and its threshold is reached *)
 Definition en (E : st) (U : list trigger) (P : trigger -> bool) (t : trigger) : bool :=
   cregok (cx E (tctx t)) && Nat.leb (tbytes t) (tot E U P (tctx t)).
@@ -66,147 +185,236 @@ Fixpoint spec_go (E : st) (U : list trigger) (phs : list (list action)) : st :=
 Definition spec_sw (sc : script) : st :=
   spec_go (do_acts (hd [] (s_phases sc)) (init BSelect sc)) (s_trigs sc) (tl (s_phases sc)).
 
-(* ------------------------------------------------------------------ monotonicity *)
-Lemma ws_mono : forall U P Q y, (forall t, In t U -> P t = true -> Q t = true) -> ws U P y <= ws U Q y.
+(* ------------------------------------------------------------------ structure of the trigger list *)
+(* a occurs before t in U *)
+Definition before (U : list trigger) (a t : trigger) : Prop := exists l1 l2, U = l1 ++ a :: l2 /\ In t l2.
+(* triggers of one context are listed by non-decreasing threshold *)
+Definition sortedU (U : list trigger) : Prop :=
+  forall a t, before U a t -> tctx t = tctx a -> tbytes a <= tbytes t.
+(* single source: a peer that some trigger terminates gets all its trigger actions from one context *)
+Definition TS (U : list trigger) : Prop :=
+  forall y, (forall t, In t U -> targets_term y (tact t) = false) \/
+            (exists c, forall t, In t U -> targets_any y (tact t) = true -> tctx t = c).
+(* P is closed under "earlier trigger of the same context" *)
+Definition pc (P : trigger -> bool) (U : list trigger) : Prop :=
+  forall a t, before U a t -> tctx t = tctx a -> P t = true -> P a = true.
+
+(* no trigger terminates a peer (then nothing below depends on the order of the list) *)
+Definition noterm (U : list trigger) : Prop := forall t y, In t U -> targets_term y (tact t) = false.
+Definition SOK (U : list trigger) : Prop := noterm U \/ sortedU U.
+Definition PCok (P : trigger -> bool) (U : list trigger) : Prop := noterm U \/ pc P U.
+
+Lemma before_cons : forall u U a t, before U a t -> before (u :: U) a t.
+Proof. intros u U a t (l1 & l2 & -> & H). exists (u :: l1), l2. auto. Qed.
+
+Lemma before_filter : forall f U a t, before (filter f U) a t -> before U a t.
 Proof.
-  induction U as [|t U IH]; intros P Q y H; simpl; auto.
-  assert (ws U P y <= ws U Q y) by (apply IH; intros; apply H; auto; right; auto).
-  destruct (P t) eqn:A; [rewrite (H t (or_introl eq_refl) A); lia|destruct (Q t); lia].
+  induction U as [|u U IH]; intros a t (m1 & m2 & E & H); simpl in E.
+  - destruct m1; discriminate.
+  - destruct (f u) eqn:F.
+    + destruct m1 as [|m m1]; simpl in E; inversion E; subst.
+      * exists [], U. split; auto. apply filter_In in H. tauto.
+      * apply before_cons. apply IH. exists m1, m2. auto.
+    + apply before_cons. apply IH. exists m1, m2. auto.
 Qed.
+
+Lemma before_In : forall U a t, before U a t -> In a U /\ In t U.
+Proof.
+  intros U a t (l1 & l2 & -> & H). split; apply in_or_app; right; [left; auto|right; auto].
+Qed.
+
+Lemma TS_filter : forall f U, TS U -> TS (filter f U).
+Proof.
+  intros f U H y. destruct (H y) as [A|[c A]].
+  - left. intros t Ht. apply filter_In in Ht. apply A. tauto.
+  - right. exists c. intros t Ht. apply filter_In in Ht. apply A. tauto.
+Qed.
+Lemma sortedU_filter : forall f U, sortedU U -> sortedU (filter f U).
+Proof. intros f U H a t B. apply H. eapply before_filter; eauto. Qed.
+
+(* downward closed along a list; then the selected elements of a larger set extend those of a smaller *)
+Definition dcl (P : trigger -> bool) (L : list trigger) : Prop :=
+  forall a t, before L a t -> P t = true -> P a = true.
+
+Lemma filter_none : forall (P : trigger -> bool) L, (forall t, In t L -> P t = false) -> filter P L = [].
+Proof. induction L as [|a L IH]; intros H; simpl; auto. rewrite (H a (or_introl eq_refl)). apply IH. intros; apply H; right; auto. Qed.
+
+Lemma filter_prefix : forall P Q L, dcl P L -> (forall t, In t L -> P t = true -> Q t = true) ->
+  exists r, filter Q L = filter P L ++ r.
+Proof.
+  induction L as [|a L IH]; intros D H; simpl; [exists []; auto|].
+  assert (D' : dcl P L) by (intros x y B; apply D; apply before_cons; auto).
+  destruct (P a) eqn:Pa.
+  - rewrite (H a (or_introl eq_refl) Pa). destruct IH as [r E]; auto.
+    + intros t Ht. apply H. right; auto.
+    + exists r. simpl. rewrite E. auto.
+  - rewrite (filter_none P L).
+    + simpl. eexists. reflexivity.
+    + intros t Ht. destruct (P t) eqn:Pt; auto.
+      rewrite (D a t) in Pa; [discriminate| |auto]. exists [], L. auto.
+Qed.
+
+Lemma filter_comm : forall {A} (f g : A -> bool) l, filter f (filter g l) = filter g (filter f l).
+Proof.
+  induction l as [|a l IH]; simpl; auto.
+  destruct (g a) eqn:G; destruct (f a) eqn:F; simpl; rewrite ?G, ?F, IH; auto.
+Qed.
+
+Lemma filter_map_tact : forall (f : action -> bool) l,
+  filter f (map tact l) = map tact (filter (fun t => f (tact t)) l).
+Proof. induction l as [|a l IH]; simpl; auto. destruct (f (tact a)); simpl; rewrite IH; auto. Qed.
+
+(* the actions reaching y when P has fired: the P-part of the y-targeting triggers, in list order *)
+Lemma yacts_filter : forall P U y,
+  yacts (filter P U) y = map tact (filter P (filter (fun t => targets_any y (tact t)) U)).
+Proof. intros. unfold yacts. rewrite filter_map_tact, filter_comm. auto. Qed.
+
+Lemma sumw_mono : forall (P Q : trigger -> bool) L, (forall t, In t L -> P t = true -> Q t = true) ->
+  sumw (map tact (filter P L)) <= sumw (map tact (filter Q L)).
+Proof.
+  induction L as [|a L IH]; intros H; simpl; auto.
+  assert (sumw (map tact (filter P L)) <= sumw (map tact (filter Q L))) by (apply IH; intros; apply H; auto; right; auto).
+  destruct (P a) eqn:Pa.
+  - rewrite (H a (or_introl eq_refl) Pa). simpl. destruct (tact a); lia.
+  - destruct (Q a); simpl; auto. destruct (tact a); lia.
+Qed.
+
+Lemma tot_mono : forall E U P Q y, TS U -> PCok P U -> (forall t, In t U -> P t = true -> Q t = true) ->
+  tot E U P y <= tot E U Q y.
+Proof.
+  intros E U P Q y T PP H. unfold tot. rewrite !yacts_filter.
+  set (Uy := filter (fun t => targets_any y (tact t)) U).
+  assert (HUy : forall t, In t Uy -> In t U /\ targets_any y (tact t) = true) by (intros t Ht; apply filter_In in Ht; auto).
+  assert (WR : (forall t, In t U -> targets_term y (tact t) = false) ->
+               cq (apply_y (map tact (filter P Uy)) (cx E y)) <= cq (apply_y (map tact (filter Q Uy)) (cx E y))).
+  { intros N.
+    assert (W : forall R, forall a, In a (map tact (filter R Uy)) -> is_write a = true).
+    { intros R a Ha. apply in_map_iff in Ha. destruct Ha as (t & <- & Ht). apply filter_In in Ht. destruct Ht as [Ht _].
+      destruct (HUy t Ht) as [A B]. specialize (N t A). unfold targets_any in B. rewrite N in B. simpl in B.
+      destruct (tact t); try discriminate; auto. }
+    rewrite !apply_writes by (apply W). unfold addq. simpl.
+    destruct (can_write (cx E y)); [|lia]. apply Nat.add_le_mono_l. apply sumw_mono.
+    intros t Ht. apply H. apply HUy. auto. }
+  destruct PP as [NT|PP]; [apply WR; intros t Ht; apply NT; auto|].
+  destruct (T y) as [N|[c C]]; [apply WR; auto|].
+  (* single source: a prefix of its action sequence *)
+  assert (D : dcl P Uy).
+  { intros a t B Pt. destruct (before_In _ _ _ B) as [Ia It].
+    apply (PP a t); auto. eapply before_filter; eauto.
+    destruct (HUy a Ia), (HUy t It). rewrite (C a), (C t); auto. }
+  destruct (filter_prefix P Q Uy D) as [r R].
+  { intros t Ht. apply H. apply HUy. auto. }
+  rewrite R, map_app, apply_y_app. apply (sf_q _ _ (apply_samefix _ _)).
+Qed.
+
+Lemma en_mono : forall E U P Q t, TS U -> PCok P U -> (forall u, In u U -> P u = true -> Q u = true) ->
+  en E U P t = true -> en E U Q t = true.
+Proof.
+  intros E U P Q t T PP H A. unfold en in *. apply Bool.andb_true_iff in A. destruct A as [A B].
+  rewrite A. simpl. apply Nat.leb_le in B. apply Nat.leb_le.
+  pose proof (tot_mono E U P Q (tctx t) T PP H). lia.
+Qed.
+
+Lemma en_pc : forall E U P, sortedU U -> pc (en E U P) U.
+Proof.
+  intros E U P S a t B C H. unfold en in *. apply Bool.andb_true_iff in H. destruct H as [H1 H2].
+  rewrite <- C, H1. simpl. apply Nat.leb_le in H2. apply Nat.leb_le. pose proof (S a t B C). lia.
+Qed.
+
+Lemma itP_pc : forall E U k, SOK U -> PCok (itP E U k) U.
+Proof.
+  intros E U k [N|S]; [left; auto|right].
+  destruct k; [intros a t _ _ H; discriminate|apply en_pc; auto].
+Qed.
+
+Lemma itP_chain : forall E U k t, TS U -> SOK U -> itP E U k t = true -> itP E U (S k) t = true.
+Proof.
+  induction k as [|k IH]; intros t T S H; [discriminate|].
+  simpl in *. eapply en_mono; [auto|apply itP_pc; auto| |apply H]. intros u _ Hu. apply IH; auto.
+Qed.
+
+Lemma itP_le : forall E U k m t, TS U -> SOK U -> k <= m -> itP E U k t = true -> itP E U m t = true.
+Proof. intros E U k m t T S H. induction H; auto. intros A. apply itP_chain; auto. Qed.
+
+(* completeness: a closed set contains every iterate *)
+Lemma itP_complete : forall E U Q, TS U -> SOK U ->
+  (forall t, In t U -> en E U Q t = true -> Q t = true) ->
+  forall k t, In t U -> itP E U k t = true -> Q t = true.
+Proof.
+  intros E U Q T S C. induction k as [|k IH]; intros t Ht H; [discriminate|].
+  simpl in H. apply C; auto. eapply en_mono; [auto|apply itP_pc; auto| |apply H]. intros u Hu A. apply IH; auto.
+Qed.
+
+(* soundness: a history made of batches, each enabled by the batches before it, stays below *)
+Definition JustB (E : st) (U : list trigger) (hb : list (list trigger)) : Prop :=
+  forall pre b post, hb = pre ++ b :: post ->
+    PCok (memt (concat pre)) U /\ forall t, In t b -> en E U (memt (concat pre)) t = true.
+
+Lemma length_concat_ne : forall (hb : list (list trigger)), (forall b, In b hb -> b <> []) -> length hb <= length (concat hb).
+Proof.
+  induction hb as [|b hb IH]; intros H; simpl; auto.
+  rewrite app_length. assert (b <> []) by (apply H; left; auto).
+  assert (length hb <= length (concat hb)) by (apply IH; intros; apply H; right; auto).
+  destruct b; [congruence|simpl; lia].
+Qed.
+
+Lemma Just_sound : forall E U hb, TS U -> SOK U -> (forall b, In b hb -> b <> []) ->
+  NoDup (concat hb) -> incl (concat hb) U -> JustB E U hb ->
+  forall t, In t (concat hb) -> LP E U t = true.
+Proof.
+  intros E U hb T SO NE ND INC J.
+  assert (forall n pre b post, length pre = n -> hb = pre ++ b :: post -> forall t, In t b -> itP E U (S n) t = true) as K.
+  { induction n as [n IH] using lt_wf_ind. intros pre b post L Eh t Ht.
+    destruct (J pre b post Eh) as [PC EN].
+    simpl. eapply en_mono; [auto|apply PC| |apply (EN t Ht)].
+    intros u _ Hu. apply memt_In in Hu. apply in_concat in Hu. destruct Hu as (b' & Hb' & Hu).
+    destruct (in_split _ _ Hb') as (p1 & p2 & ->).
+    apply (itP_le E U (S (length p1)) n); auto; [rewrite <- L, app_length; simpl; lia|].
+    apply (IH (length p1)) with (pre := p1) (b := b') (post := p2 ++ b :: post); auto.
+    - rewrite <- L, app_length. simpl. lia.
+    - rewrite Eh, <- app_assoc. auto. }
+  intros t Ht. apply in_concat in Ht. destruct Ht as (b & Hb & Ht).
+  destruct (in_split _ _ Hb) as (pre & post & Eh).
+  unfold LP. apply (itP_le E U (S (length pre))); auto; [|eapply K; eauto].
+  pose proof (NoDup_incl_length ND INC) as LL.
+  pose proof (length_concat_ne hb NE) as LC.
+  assert (length hb = length pre + S (length post)) as LH by (rewrite Eh, app_length; simpl; auto).
+  lia.
+Qed.
+
+(* a closed justified history has fired exactly the least fixpoint *)
+Lemma closed_is_lfp : forall E U hb, TS U -> SOK U -> (forall b, In b hb -> b <> []) ->
+  NoDup (concat hb) -> incl (concat hb) U -> JustB E U hb ->
+  (forall t, In t U -> en E U (memt (concat hb)) t = true -> memt (concat hb) t = true) ->
+  forall t, In t U -> memt (concat hb) t = LP E U t.
+Proof.
+  intros E U hb T S NE Nh INC J C t Ht.
+  destruct (memt (concat hb) t) eqn:A.
+  - symmetry. apply (Just_sound E U hb T S NE Nh INC J). apply memt_In; auto.
+  - destruct (LP E U t) eqn:B; auto.
+    rewrite (itP_complete E U (memt (concat hb)) T S C (length U) t Ht B) in A. discriminate.
+Qed.
+
+(* ------------------------------------------------------------------ the ghost of a history *)
+(* the history lists the triggers of each context in the order of U *)
+Definition ctxf (c : nat) (t : trigger) : bool := Nat.eqb (tctx t) c.
+Definition ordU (U h : list trigger) : Prop :=
+  forall c, filter (ctxf c) h = filter (memt h) (filter (ctxf c) U).
+
+Fixpoint wsl (l : list trigger) (y : nat) : nat :=
+  match l with [] => 0 | t :: r => act_writes_to y (tact t) + wsl r y end.
+Fixpoint ws (U : list trigger) (P : trigger -> bool) (y : nat) : nat :=
+  match U with [] => 0 | t :: r => (if P t then act_writes_to y (tact t) else 0) + ws r P y end.
 
 Lemma ws_ext : forall U P Q y, (forall t, In t U -> P t = Q t) -> ws U P y = ws U Q y.
 Proof.
   induction U as [|t U IH]; intros P Q y H; simpl; auto.
   rewrite (H t (or_introl eq_refl)), (IH P Q y); auto. intros; apply H; right; auto.
 Qed.
-
-Lemma en_mono : forall E U P Q t, (forall u, In u U -> P u = true -> Q u = true) ->
-  en E U P t = true -> en E U Q t = true.
-Proof.
-  intros E U P Q t H A. unfold en, tot in *. apply Bool.andb_true_iff in A. destruct A as [A B].
-  rewrite A. simpl. apply Nat.leb_le in B. apply Nat.leb_le.
-  pose proof (ws_mono U P Q (tctx t) H). destruct (can_write _); lia.
-Qed.
-
-Lemma itP_chain : forall E U k t, itP E U k t = true -> itP E U (S k) t = true.
-Proof.
-  induction k as [|k IH]; intros t H; [discriminate|].
-  simpl in *. eapply en_mono; [|apply H]. intros u _ Hu. apply IH. auto.
-Qed.
-
-Lemma itP_le : forall E U k m t, k <= m -> itP E U k t = true -> itP E U m t = true.
-Proof.
-  intros E U k m t H. induction H; auto. intros A. apply itP_chain. auto.
-Qed.
-
-(* completeness: a closed set contains every iterate *)
-Lemma itP_complete : forall E U Q, (forall t, In t U -> en E U Q t = true -> Q t = true) ->
-  forall k t, In t U -> itP E U k t = true -> Q t = true.
-Proof.
-  intros E U Q C. induction k as [|k IH]; intros t Ht H; [discriminate|].
-  simpl in H. apply C; auto. eapply en_mono; [|apply H]. intros u Hu A. apply IH; auto.
-Qed.
-
-(* soundness: a history in which every trigger was enabled by the ones before it stays below *)
-Definition Just (E : st) (U : list trigger) (h : list trigger) : Prop :=
-  forall pre t post, h = pre ++ t :: post -> en E U (memt pre) t = true.
-
-Lemma Just_sound : forall E U h, NoDup h -> incl h U -> Just E U h ->
-  forall t, In t h -> LP E U t = true.
-Proof.
-  intros E U h ND INC J.
-  assert (forall n pre t post, length pre = n -> h = pre ++ t :: post -> itP E U (S n) t = true) as K.
-  { induction n as [n IH] using lt_wf_ind. intros pre t post L Eh.
-    simpl. eapply en_mono; [|apply (J pre t post Eh)].
-    intros u _ Hu. apply memt_In in Hu. destruct (in_split _ _ Hu) as (p1 & p2 & ->).
-    apply (itP_le E U (S (length p1)) n); [rewrite <- L, app_length; simpl; lia|].
-    apply (IH (length p1)) with (pre := p1) (post := p2 ++ t :: post); auto.
-    - rewrite <- L, app_length. simpl. lia.
-    - rewrite Eh, <- app_assoc. auto. }
-  intros t Ht. destruct (in_split _ _ Ht) as (pre & post & Eh).
-  unfold LP. apply (itP_le E U (S (length pre))); [|eapply K; eauto].
-  pose proof (NoDup_incl_length ND INC) as LL. rewrite Eh, app_length in LL. simpl in LL. lia.
-Qed.
-
-Lemma Just_app : forall E U h l, Just E U h ->
-  (forall pre t post, l = pre ++ t :: post -> en E U (memt (h ++ pre)) t = true) -> Just E U (h ++ l).
-Proof.
-  intros E U h l J H pre t post Eq.
-  (* split position: inside h or inside l *)
-  revert pre Eq. induction h as [|a h IH] using rev_ind; intros pre Eq.
-  - simpl in *. apply (H pre t post Eq).
-  - destruct (Nat.lt_ge_cases (length pre) (length (h ++ [a]))) as [Lt|Ge].
-    + (* t lies in h ++ [a] *)
-      assert (exists post', h ++ [a] = pre ++ t :: post' /\ post = post' ++ l) as (post' & E1 & E2).
-      { clear - Eq Lt. revert pre Eq Lt. generalize (h ++ [a]) as hh. induction hh as [|b hh IHh]; intros pre Eq Lt; [simpl in Lt; lia|].
-        destruct pre as [|c pre]; simpl in *.
-        - inversion Eq; subst. exists hh. auto.
-        - inversion Eq; subst. destruct (IHh pre H1) as (p' & A & B); [lia|]. exists p'. split; [f_equal; auto|auto]. }
-      apply (J pre t post' E1).
-    + (* t lies in l *)
-      assert (exists pre', pre = (h ++ [a]) ++ pre' /\ l = pre' ++ t :: post) as (pre' & E1 & E2).
-      { clear - Eq Ge. revert pre Eq Ge. generalize (h ++ [a]) as hh. induction hh as [|b hh IHh]; intros pre Eq Ge; simpl in *.
-        - exists pre. auto.
-        - destruct pre as [|c pre]; simpl in *; [lia|]. inversion Eq; subst.
-          destruct (IHh pre H1) as (p' & A & B); [lia|]. exists p'. split; [f_equal; auto|auto]. }
-      subst pre. apply (H pre' t post E2).
-Qed.
-
-(* ------------------------------------------------------------------ the ghost of write-only histories *)
-Definition addq (c : cst) (n : nat) : cst :=
-  mkC (ckind c) (cq c + n) (ceof c) (cpopen c) (csht c) (cflag c) (cadded c) (cregok c) (cclosed c) (coff c).
-
-Lemma addq_0 : forall c, addq c 0 = c.
-Proof. intros []. unfold addq. simpl. rewrite Nat.add_0_r. auto. Qed.
-Lemma addq_addq : forall c a b, addq (addq c a) b = addq c (a + b).
-Proof. intros. unfold addq. simpl. f_equal. lia. Qed.
-Lemma can_write_addq : forall c n, can_write (addq c n) = can_write c.
-Proof. intros. reflexivity. Qed.
-
-Lemma cx_do_write : forall z k s y,
-  cx (do_act (AWrite z k) s) y =
-  if can_write (cx s z) && Nat.eqb y z then addq (cx s y) k else cx s y.
-Proof.
-  intros. unfold do_act. destruct (can_write (cx s z)) eqn:CW; simpl; auto.
-  destruct (Nat.eqb k 0); simpl; rewrite ?cx_edge; simpl;
-    (destruct (Nat.eqb y z) eqn:E; auto; apply Nat.eqb_eq in E; subst; auto).
-Qed.
-
-Lemma bk_do_write : forall z k s, bk (do_act (AWrite z k) s) = bk s.
-Proof.
-  intros. unfold do_act. destruct (can_write (cx s z)); simpl; auto.
-  destruct (Nat.eqb k 0); simpl; rewrite ?bk_edge; auto.
-Qed.
-
-Definition all_writes (l : list trigger) : Prop := forall t, In t l -> is_write (tact t) = true.
-
-Lemma ghost_w : forall l E y, all_writes l ->
-  cx (do_acts (map tact l) E) y = addq (cx E y) (if can_write (cx E y) then wsl l y else 0) /\
-  bk (do_acts (map tact l) E) = bk E.
-Proof.
-  induction l as [|t l IH]; intros E y W; simpl.
-  - split; auto. destruct (can_write (cx E y)); rewrite addq_0; auto.
-  - assert (Wt : is_write (tact t) = true) by (apply W; left; auto).
-    assert (Wl : all_writes l) by (intros u Hu; apply W; right; auto).
-    destruct (tact t) as [z k| | | | | |] eqn:TA; try discriminate.
-    destruct (IH (do_act (AWrite z k) E) y Wl) as [A B].
-    pose proof (bk_do_write z k E) as F1.
-    split; [|congruence].
-    rewrite A, cx_do_write. unfold wr, act_writes_to. rewrite TA.
-    destruct (Nat.eqb z y) eqn:Ezy.
-    + apply Nat.eqb_eq in Ezy. subst z. rewrite Nat.eqb_refl.
-      destruct (can_write (cx E y)) eqn:CW; simpl.
-      * rewrite can_write_addq, CW, addq_addq. auto.
-      * rewrite CW. auto.
-    + assert (Nat.eqb y z = false) as -> by (apply Nat.eqb_neq; apply Nat.eqb_neq in Ezy; auto).
-      rewrite Bool.andb_false_r. simpl. auto.
-Qed.
-
 Lemma wsl_filter : forall U P y, wsl (filter P U) y = ws U P y.
 Proof. induction U as [|t U IH]; intros; simpl; auto. destruct (P t); simpl; rewrite IH; auto. Qed.
-
 Lemma ws_add1 : forall U Q a y, NoDup U -> In a U -> Q a = false ->
-  ws U (fun t => (if trigger_eq_dec t a then true else false) || Q t) y = wr y a + ws U Q y.
+  ws U (fun t => (if trigger_eq_dec t a then true else false) || Q t) y = act_writes_to y (tact a) + ws U Q y.
 Proof.
   induction U as [|u U IH]; intros Q a y ND Hin Qa; [destruct Hin|].
   inversion ND as [|? ? Hu ND']; subst. simpl.
@@ -215,7 +423,6 @@ Proof.
     apply ws_ext. intros t Ht. destruct (trigger_eq_dec t a) as [->|]; auto. contradiction.
   - destruct Hin as [Hin|Hin]; [congruence|]. rewrite (IH Q a y ND' Hin Qa). destruct (Q u); lia.
 Qed.
-
 Lemma wsl_ws : forall h U y, NoDup U -> NoDup h -> incl h U -> wsl h y = ws U (memt h) y.
 Proof.
   induction h as [|a h IH]; intros U y NU Nh INC; simpl.
@@ -226,33 +433,105 @@ Proof.
     apply ws_ext. intros t Ht. unfold memt. simpl. auto.
 Qed.
 
-(* the ghost after a justified, NoDup history of writes; and the canonical ghost *)
-Lemma ghost_hist : forall E U h y, NoDup U -> NoDup h -> incl h U -> all_writes U ->
-  cx (do_acts (map tact h) E) y = addq (cx E y) (if can_write (cx E y) then ws U (memt h) y else 0).
+Lemma sumw_yacts : forall l y, (forall t, In t l -> targets_term y (tact t) = false) -> sumw (yacts l y) = wsl l y.
 Proof.
-  intros E U h y NU Nh INC W.
-  destruct (ghost_w h E y) as [A _]; [intros t Ht; apply W; auto|].
-  rewrite A, (wsl_ws h U y); auto.
+  induction l as [|t l IH]; intros y H; simpl; auto.
+  specialize (IH y (fun u Hu => H u (or_intror Hu))).
+  pose proof (H t (or_introl eq_refl)) as Ht.
+  unfold yacts in *. simpl.
+  assert (TA : targets_any y (tact t) = match tact t with AWrite z _ => Nat.eqb z y | _ => false end).
+  { unfold targets_any. rewrite Ht. auto. }
+  rewrite TA. unfold act_writes_to.
+  destruct (tact t) as [z k| | | | | |]; simpl; auto.
+  destruct (Nat.eqb z y); simpl; rewrite IH; auto.
 Qed.
 
-Lemma ghost_settle : forall E U y, all_writes U ->
-  cx (settle E U) y = addq (cx E y) (if can_write (cx E y) then ws U (LP E U) y else 0) /\
-  bk (settle E U) = bk E.
+
+Lemma yacts_ctx : forall l y c, (forall t, In t l -> targets_any y (tact t) = true -> tctx t = c) ->
+  yacts l y = yacts (filter (ctxf c) l) y.
 Proof.
-  intros E U y W. unfold settle.
-  destruct (ghost_w (filter (LP E U) U) E y) as [A B].
-  - intros t Ht. apply filter_In in Ht. apply W. tauto.
-  - rewrite A, wsl_filter. auto.
+  induction l as [|t l IH]; intros y c H; simpl; auto.
+  unfold yacts in *. simpl. specialize (IH y c (fun u Hu => H u (or_intror Hu))).
+  unfold ctxf at 1. destruct (Nat.eqb (tctx t) c) eqn:E; simpl.
+  - destruct (targets_any y (tact t)); rewrite IH; auto.
+  - destruct (targets_any y (tact t)) eqn:Tg; [|auto].
+    rewrite (H t (or_introl eq_refl) Tg), Nat.eqb_refl in E. discriminate.
 Qed.
 
-(* a closed justified history has fired exactly the least fixpoint *)
-Lemma closed_is_lfp : forall E U h, NoDup h -> incl h U -> Just E U h ->
-  (forall t, In t U -> en E U (memt h) t = true -> memt h t = true) ->
-  forall t, In t U -> memt h t = LP E U t.
+(* the ghost after the history = the ghost after the same triggers in list order *)
+Lemma ghost_eq : forall E U h y, all_tacts U -> NoDup U -> NoDup h -> incl h U -> TS U ->
+  noterm U \/ ordU U h ->
+  cx (do_acts (map tact h) E) y = apply_y (yacts (filter (memt h) U) y) (cx E y).
 Proof.
-  intros E U h Nh INC J C t Ht.
-  destruct (memt h t) eqn:A.
-  - symmetry. apply (Just_sound E U h Nh INC J). apply memt_In; auto.
-  - destruct (LP E U t) eqn:B; auto.
-    rewrite (itP_complete E U (memt h) C (length U) t Ht B) in A. discriminate.
+  intros E U h y W NU Nh INC T O.
+  destruct (ghost_y h E y) as [A _]; [intros t Ht; apply W; auto|]. rewrite A.
+  assert (NC : (forall t, In t U -> targets_term y (tact t) = false) \/
+               (ordU U h /\ exists c, forall t, In t U -> targets_any y (tact t) = true -> tctx t = c)).
+  { destruct O as [N|O]; [left; intros t Ht; apply N; auto|]. destruct (T y) as [N|C]; auto. }
+  destruct NC as [N|[O' [c C]]].
+  - assert (W1 : forall a, In a (yacts h y) -> is_write a = true).
+    { intros a Ha. unfold yacts in Ha. apply filter_In in Ha. destruct Ha as [Ha Tg].
+      apply in_map_iff in Ha. destruct Ha as (t & <- & Ht). specialize (N t (INC t Ht)).
+      unfold targets_any in Tg. rewrite N in Tg. simpl in Tg. destruct (tact t); try discriminate; auto. }
+    assert (W2 : forall a, In a (yacts (filter (memt h) U) y) -> is_write a = true).
+    { intros a Ha. unfold yacts in Ha. apply filter_In in Ha. destruct Ha as [Ha Tg].
+      apply in_map_iff in Ha. destruct Ha as (t & <- & Ht). apply filter_In in Ht. specialize (N t (proj1 Ht)).
+      unfold targets_any in Tg. rewrite N in Tg. simpl in Tg. destruct (tact t); try discriminate; auto. }
+    rewrite (apply_writes _ _ W1), (apply_writes _ _ W2).
+    rewrite !sumw_yacts.
+    + rewrite wsl_filter, (wsl_ws h U y); auto.
+    + intros t Ht. apply filter_In in Ht. apply N. tauto.
+    + intros t Ht. apply N. auto.
+  - rewrite (yacts_ctx h y c) by (intros t Ht; apply C; auto).
+    rewrite (yacts_ctx (filter (memt h) U) y c) by (intros t Ht; apply filter_In in Ht; apply C; tauto).
+    rewrite (O' c), filter_comm. auto.
+Qed.
+
+Lemma ghost_settle : forall E U y, all_tacts U ->
+  cx (settle E U) y = apply_y (yacts (filter (LP E U) U) y) (cx E y) /\ bk (settle E U) = bk E.
+Proof.
+  intros E U y W. unfold settle. apply ghost_y.
+  intros t Ht. apply filter_In in Ht. apply W. tauto.
+Qed.
+
+(* ------------------------------------------------------------------ small facts used by the simulation *)
+Lemma filter_memt_nil : forall l, filter (memt []) l = [].
+Proof. induction l; simpl; auto. Qed.
+
+Lemma JustB_snoc : forall E U hb b, JustB E U hb -> PCok (memt (concat hb)) U ->
+  (forall t, In t b -> en E U (memt (concat hb)) t = true) -> JustB E U (hb ++ [b]).
+Proof.
+  intros E U hb b J PC EN pre b' post Eq.
+  destruct post as [|p post].
+  - apply app_inj_tail in Eq. destruct Eq as [-> ->]. auto.
+  - assert (hb = pre ++ b' :: removelast (p :: post)) as Eh.
+    { assert (p :: post <> []) as NE by discriminate.
+      rewrite (app_removelast_last b' NE) in Eq. rewrite app_comm_cons, app_assoc in Eq.
+      apply app_inj_tail in Eq. destruct Eq as [-> _]. auto. }
+    apply (J pre b' _ Eh).
+Qed.
+
+Lemma apply_dead : forall l c, ceof c = true -> cq (apply_y l c) = cq c /\ ceof (apply_y l c) = true.
+Proof.
+  induction l as [|a l IH]; intros c H; simpl; auto.
+  assert (cq (act1 a c) = cq c /\ ceof (act1 a c) = true) as [A B].
+  { destruct a; simpl; auto.
+    - unfold can_write. rewrite H. simpl. rewrite Bool.andb_false_r. auto.
+    - rewrite H. simpl. rewrite Bool.andb_false_r. auto.
+    - destruct (cpopen c); simpl; auto. }
+  destruct (IH _ B) as [C D]. split; congruence.
+Qed.
+
+Lemma filter_split_dcl : forall (p q : trigger -> bool) L, dcl p L ->
+  filter p L ++ filter (fun t => negb (p t) && q t) L = filter (fun t => p t || (negb (p t) && q t)) L.
+Proof.
+  induction L as [|a L IH]; intros D; simpl; auto.
+  assert (D' : dcl p L) by (intros x y B; apply D; apply before_cons; auto).
+  destruct (p a) eqn:Pa; simpl.
+  - rewrite IH; auto.
+  - assert (NP : forall t, In t L -> p t = false).
+    { intros t Ht. destruct (p t) eqn:Pt; auto. rewrite (D a t) in Pa; [discriminate| |auto]. exists [], L. auto. }
+    rewrite (filter_none p L NP). simpl.
+    assert (filter (fun t => negb (p t) && q t) L = filter (fun t => p t || negb (p t) && q t) L) as ->; auto.
+    apply filter_ext_in. intros t Ht. rewrite (NP t Ht). auto.
 Qed.
